@@ -325,6 +325,25 @@ def compare(ctx, ref, ref_events, got, got_events, ssa_var, out_regs):
     return None
 
 
+def phi_left(blocks):
+    for loc, blk in blocks.items():
+        for ab in blk:
+            for dst, src in ab.items():
+                if any(x.is_op("Phi") for x in _subexprs(src)):
+                    return "%s = %s in %s" % (dst, common.short(src, 120), loc)
+    return None
+
+
+def _subexprs(expr):
+    out = []
+
+    def cb(x):
+        out.append(x)
+        return x
+    expr.visit(cb)
+    return out
+
+
 def make_key(pname, guilty, diff_class, stages):
     if guilty == "ssa_to_unssa":
         causes = sorted(c for c in stages.notes if c != "monitor error")
@@ -393,6 +412,14 @@ def check_graph(rec, rng, ctx, ircfg, head, info, tier, case_id):
             rec.sample(dict(rejected=pname, exc=repr(exc)[:200], shape=info["shape"]), limit=12)
             continue
         rec.count("pipeline_ok:" + pname)
+        left = phi_left(out.blocks)
+        if left:
+            # not a behavioural question: the result of the pipeline must be out of SSA
+            wit = dict(info)
+            wit.update(pipeline=pname, simplified=dump_graph(ctx, out.blocks), original=dump_graph(ctx, ircfg.blocks))
+            rec.fail("pipeline=%s pass=ssa_to_unssa result still contains Phi" % pname,
+                     "%s (%s): %s" % (pname, kind, left), wit)
+            continue
         for name in set(n for n, _, m in stages.items if m):
             rec.count("modified:%s:%s" % (pname, name))
         if set(out.blocks) != set(ircfg.blocks):
